@@ -332,10 +332,11 @@ VIS int __register_atfork(void (*prepare)(void), void (*parent)(void), void (*ch
     init_real();
     int r = real(prepare, parent, child, dso);
     /* (the registration is the library's if it passes the library's own __dso_handle: the stub is usually reached by a tail call) */
-    if (mode != MODE_OFF && !in_child && !in_point && from_lib2(ra, dso)) {
+    /* PARK mode only: under the cooperative scheduler a switch inside pthread_once() would leave the other thread blocked in libc's
+     * own wait for the initialisation, which that scheduler cannot see */
+    if (mode == MODE_PARK && generic_park && !in_child && !in_point && from_lib2(ra, dso)) {
         in_point = 1;
-        if (mode == MODE_COOP) { if (my_index >= 0) coop_point('c'); }
-        else if (mode == MODE_PARK && generic_park) park_event();
+        park_event();
         in_point = 0;
     }
     return r;
